@@ -33,7 +33,25 @@ def history(method):
                    # and not observable: the usual warm-up / search / fine-tune phases)
                    st.tuples(st.just('phase'), st.sampled_from(
                        ['train_net_only', 'train_nas_only', 'train_net_and_nas'])))
-    return st.lists(op, min_size=0, max_size=7).map(lambda l: [list(o) for o in l])
+    free = st.lists(op, min_size=0, max_size=7).map(lambda l: [list(o) for o in l])
+    # the usual shape of a search - warm-up, search, fine-tuning, each with optimizer steps - is
+    # reached too rarely by independent draws: a third of the histories follows such a script,
+    # with up to three free operations inserted anywhere
+    step = ['step', 'sgd']
+    scripts = [
+        [['phase', 'train_net_only'], step, ['phase', 'train_net_and_nas'], step],
+        [['phase', 'train_net_only'], step, ['phase', 'train_nas_only'], step, step],
+        [['phase', 'train_nas_only'], step, ['phase', 'train_net_only'], step],
+        [['phase', 'train_net_and_nas'], step, ['mode', 'eval'], step, ['mode', 'train'], step],
+    ]
+
+    @st.composite
+    def scripted(draw):
+        h = [list(o) for o in draw(st.sampled_from(scripts))]
+        for extra in draw(st.lists(op, min_size=0, max_size=3)):
+            h.insert(draw(st.integers(0, len(h))), list(extra))
+        return h
+    return st.one_of(free, free, scripted())
 
 
 @st.composite
